@@ -24,10 +24,14 @@ def run(ctx):
     ctx.rule("R04-5", "every dup2 call site is in the post-fork Child region")
     ctx.rule("R04-6", "here-string: the parent writes the word, then a newline constant, into the pipe the child "
                       "has dup2'ed onto descriptor 0")
+    ctx.rule("R04-8", "several input redirections on one command: the LAST one wins, as for output - Command::from_tokens "
+                      "strips `<` / `<<<` operands by forward search (position) and lets each overwrite the recorded "
+                      "source; a backward search (rposition / rev / rfind) makes the first one win")
     ctx.rule("R04-7", "the here-string pipe's read end is still the descriptor pipe() returned when the child "
                       "installs it: between fork and dup2(here_string.0, 0) the child performs no operation on a "
                       "number the shell released at an earlier stage (pipes[idx-1].1)")
     for crate in ctx.crates:
+        input_order_rule(ctx, crate)
         opener_rule(ctx, crate)
         body = crate.fn("core::run_single_program")
         if not ctx.require(body is not None, "R04-2", "R04-2|anchor", "core::run_single_program not found"):
@@ -347,3 +351,22 @@ def here_string_rule(ctx, crate, body, child):
     order = body.dominates(first, second)
     ctx.ob("R04-6", body.path, "parent writes redirect_from.1 then the constant b\"\\n\" to the here-string pipe",
            word is not None and const2 and order, key="R04-6|%s|feed" % body.path, where=body.loc(first), crate=crate.kind)
+
+
+def input_order_rule(ctx, crate):
+    b = crate.fn("types::Command::from_tokens")
+    if not ctx.require(b is not None, "R04-8", "R04-8|anchor", "types::Command::from_tokens not found"):
+        return
+    ctx.analysed(b)
+    fwd, back = [], []
+    for bb, t, c in b.calls():
+        ls = last_seg(c)
+        if ls in ("position", "find", "find_map"):
+            fwd.append((bb, ls))
+        if ls in ("rposition", "rfind", "rev", "last", "next_back", "rfind_map"):
+            back.append((bb, ls))
+    ok = len(fwd) >= 2 and not back
+    ctx.ob("R04-8", b.path, "the `<` / `<<<` operands are located by forward search (%d sites)" % len(fwd), ok,
+           key="R04-8|%s|input-search-direction" % b.path, where=b.loc((back or fwd or [(0, "")])[0][0]), crate=crate.kind,
+           detail=None if ok else "%s: with `cat < a < b` the first operand is recorded last and wins (bash and the output side "
+           "give the last one)" % ", ".join(x[1] for x in back))
